@@ -377,13 +377,13 @@ package lexer
 //@   ensures result == nil ==> lexer.stack[len(lexer.stack)-1].groups == groups
 //@   ensures result == nil ==> forall(k, 0, len(old(lexer.stack)), lexer.stack[k] == old(lexer.stack[k]))
 
-//@ func (*StatefulDefinition).LexString [C04 C07 C15]
+//@ func (*StatefulDefinition).LexString [C04 C07 C15 C03]
 //@   frame-tags C09
 //@   ensures result1 == nil && typeis(result0, *StatefulLexer) && fresh(result0)
 //@   ensures rulesOK(d) ==> slInv(result0.(*StatefulLexer))
 //@   ensures posInv(result0.(*StatefulLexer), s, filename) && result0.(*StatefulLexer).pos == Position{filename, 0, 1, 1}
 //@   ensures len(result0.(*StatefulLexer).stack) == 1 && result0.(*StatefulLexer).stack[0].name == "Root" && result0.(*StatefulLexer).def == d
-//@   ensures fresh(result0.(*StatefulLexer).stack) && result0.(*StatefulLexer).data == s [C09 C04 C15]
+//@   ensures fresh(result0.(*StatefulLexer).stack) && result0.(*StatefulLexer).data == s [C09 C04 C15 C03 C07]
 //@   use emptyFacts() at exit
 
 // The reader entry point lexes exactly the bytes read, under the caller's filename (C15: Lex, LexString
